@@ -4,6 +4,7 @@ from ..facts import AST, VISITOR_CRATE, walk, walk_with_parents, strip_transpare
 from ..engine import Rule
 from ..cfg import calls, callee_name, place_of, op_const
 from . import common as C
+from .hirtext import expr_str
 from .mirflow import self_field_of
 from .influence import flow_of, switch_fields
 from .state import first_field
@@ -160,6 +161,11 @@ def r20_2(ctx):
         r.ob("define_component has exactly one writer", False, "-", "%d writer(s)" % len(writers))
         return r
     hb, wn = writers[0]
+    # the record is only ever set: an import declaration that does not name defineComponent must not clear what an earlier one recorded
+    rhs = strip_transparent(wn["r"])
+    only_set = rhs.get("k") == "Ctor" and rhs.get("variant") == "Some"
+    r.ob("the recorded binding is only ever set (Some(..)), never overwritten with the outcome of one declaration's search", only_set, C.mloc(hb, wn),
+         "self.define_component = Some(ctxt)" if only_set else "`%s` is stored as it is: `import type { X } from 'vue'` after the defineComponent import resets the record to None" % expr_str(rhs)[:80])
     r.saw(hb["path"])
     idx = HirIndex(hb)
     # (a) source test: an equality comparison of `.src.value` with "vue" that gates the write
